@@ -995,7 +995,9 @@ func main() {
 			for _, d := range rr {
 				g.retShared = append(g.retShared, fmt.Sprintf("{| w_entry := %s; w_fn := %s; w_pos := %s; w_kind := %s; w_root := %s; w_chain := %s |}",
 					coqStr(n), coqStr(n), coqStr(rel(fn.Pos())), coqStr("Return"), coqStr(d), coqStr("")))
-				g.rep = append(g.rep, fmt.Sprintf("RESULT-ALIASES %s: a result of %s (%s) points into %s", n, n, rel(fn.Pos()), d))
+				if n != "sigbits.New" { // documented: the SigBits value keeps the caller's key slice (Properties/C19.v allows exactly this one)
+					g.rep = append(g.rep, fmt.Sprintf("RESULT-ALIASES %s: a result of %s (%s) points into %s", n, n, rel(fn.Pos()), d))
+				}
 			}
 			var keys []condKey
 			for k := range a.cond[fn] {
